@@ -21,6 +21,20 @@ CLAIMED = {
         technique='contract-based deductive verification: AST->VC symbolic execution of the real functions, z3/cvc5'),
 }
 
+CLAIMED['C04'] = dict(
+    text='Deductive proof, complete over the finite index: for each of the 13 x 19 cells, both roles, ARTIM running or '
+         'not, and every applicable primitive kind (fields symbolic), the real provider is built by the real '
+         'constructors, StateMachine.action(event) and the action method it dispatches to are executed symbolically from '
+         'the working tree (the transition table is the dict display evaluated from the AST), and wire / user / transport / '
+         'ARTIM / next-state effects are compared with the transcription of PS3.8 Tables 9-6..9-10; undefined cells must '
+         'have no effect. 247 cells x 2 roles x 2 timer states x primitive kinds, ~11000 obligations.',
+    ref='4/C04',
+    note=TRUST + 'spec/ps38_table_9_10.py is the oracle; transport pre-state per cell is the provider-loop invariant '
+         '(C05); PDU encode() and DIMSEDecoder.process are seen through their contracts (C02, C07); sockets, queues, '
+         'clock are effect stubs',
+    technique='contract-based deductive verification: per-cell symbolic execution of the real action bodies against '
+              'the state-table contract, z3/cvc5')
+
 NOT_YET = {
 }
 
